@@ -1648,6 +1648,32 @@ bool VariableManager::handle_array_literal_initialization(const ASTNode *node,
                       "VAR_DEBUG: stored array var %s with ");
         }
 
+        const ASTNode *literal = node->init_expr.get();
+        if (var.is_struct && !literal->arguments.empty() &&
+            literal->arguments[0]->node_type ==
+                ASTNodeType::AST_STRUCT_LITERAL) {
+            // struct配列リテラル初期化: S[2] ss = [{1, 2}, {3, 4}];
+            // 各要素を構造体リテラルとして代入する（ss[i] = {...} と同じ処理）
+            if (literal->arguments.size() >
+                static_cast<size_t>(var.array_size)) {
+                throw std::runtime_error(
+                    "Array literal has too many elements: " +
+                    std::to_string(literal->arguments.size()) + " > " +
+                    std::to_string(var.array_size));
+            }
+            for (size_t i = 0; i < literal->arguments.size(); i++) {
+                const ASTNode *element = literal->arguments[i].get();
+                if (element->node_type != ASTNodeType::AST_STRUCT_LITERAL) {
+                    throw std::runtime_error("Expected struct literal in "
+                                             "struct array initialization");
+                }
+                interpreter_->assign_struct_literal(
+                    node->name + "[" + std::to_string(i) + "]", element);
+            }
+            current_scope().variables[node->name].is_assigned = true;
+            return true;
+        }
+
         // 配列リテラル代入を実行
         interpreter_->assign_array_literal(node->name, node->init_expr.get());
 
